@@ -14,7 +14,7 @@ def chain_for(r, coin, n):
 def explore(ck):
     r = ck.rng; quick = ck.tier == 'quick'
     ck.rule = ('bounded-exhaustive: every chain length T+1 (T <= %d) x every accepted (--start s, --end e) incl. absent, e below/at/above the tip, s up to T, '
-               'x 5 callbacks (callback rotates per (T,s,e) in the quick tier, all five in the thorough tier) x --verify on/off; plus high-height windows, chains of 140..520 blocks and blocks ping-ponging between two blk files '
+               'x 5 callbacks (callback rotates per (T,s,e) in the quick tier, all five in the thorough tier) x --verify on/off; plus high-height windows, windows whose index has no record below --start, indexes with header-only records above the tip and header-only/stale siblings (sorting before the active block) at occupied heights, chains of 140..520 blocks and blocks ping-ponging between two blk files '
                '(multi-byte VarInt heights). Non-trivial: s > 0 or e <= T (a bound cuts the chain); distinct by (T,s,e,callback).' % (4 if quick else 9))
     cases = []; expect = {}
     Tmax = 4 if quick else 9
@@ -44,6 +44,28 @@ def explore(ck):
             c.verify = True; c.meta['cbs'] = ['csv', 'stats'] if quick else CBS; c.meta['T'] = H - 1 + n
             expect[c.id] = list(range(s, min(e, H - 1 + n) + 1 if e is not None else H + n))
             cases.append(c)
+    # windows without a record for height s-1 (a pruned / partial index that starts exactly at s), --start s
+    for H in [1, 2, 7, 300, 70000]:
+        n = 3; coin = r.choice(gen.ALL_COINS); blocks = chain_for(r, coin, n + 1)
+        for s, e in [(H, None), (H, H + 1), (H + 1, None)]:
+            c = Case('noparent%d_s%d_e%s' % (H, s, e), coin).simple_layout(blocks, start_height=H); c.start = s; c.end = e
+            c.verify = False; c.meta['cbs'] = ['csv', 'unspent']; c.meta['T'] = H + n
+            expect[c.id] = list(range(s, min(e, H + n) + 1 if e is not None else H + n + 1)); cases.append(c)
+    # records that are not part of the chain but live in the same index (C04's subject; here they must not shift the range): header-only records above the tip,
+    # a header-only record and a stale sibling with data (sorting before the active block) at an occupied height
+    for k2 in range(4 if quick else 16):
+        coin = gen.ALL_COINS[k2 % 8]; T = r.randrange(3, 7); blocks = chain_for(r, coin, T + 1)
+        for s, e in [(0, None), (1, None), (2, T + 5), (0, T - 1), (T, None)]:
+            c = Case('extra%d_s%d_e%s' % (k2, s, e), coin).simple_layout(blocks); c.start = s; c.end = e; c.verify = s > 0 and k2 % 2 == 0
+            for up in range(1, r.randrange(2, 5)):
+                hb = Block(blocks[T].hash, [coinbase_tx(T + up, [(1, b'\x51')], extra=gen.rb(r, 4))], time=r.getrandbits(31)); c.add_record(hb, T + up, 0, 0, status=2, ntx=0)
+            hh = r.randrange(1, T + 1)
+            hb = Block(blocks[hh].prev, [coinbase_tx(hh, [(1, b'\x51')], extra=gen.rb(r, 4))], time=r.getrandbits(31)); c.add_record(hb, hh, 0, 0, status=2, ntx=0)
+            for _ in range(3000):
+                sb = Block(blocks[hh].prev, [coinbase_tx(hh, [(7, P2PKH(gen.rb(r, 20)))], extra=gen.rb(r, 4))], time=r.getrandbits(31), nonce=r.getrandbits(32))
+                if sb.hash < blocks[hh].hash: off = c.put_block(1, sb.raw); c.add_record(sb, hh, 1, off, status=0x0b, ntx=1); break
+            c.meta['cbs'] = ['csv', 'stats'] if quick else CBS; c.meta['T'] = T
+            expect[c.id] = list(range(s, min(e, T) + 1 if e is not None else T + 1)); cases.append(c)
     # long chains (a read-ahead / batching defect needs well over a hundred blocks) and blocks ping-ponging between blk files
     for T, fileplan in ([(140, 'single'), (150, 'pingpong')] if quick else [(140, 'single'), (300, 'pingpong'), (520, 'single'), (260, 'pingpong')]):
         coin = r.choice(gen.ALL_COINS); blocks = []; prev = b'\x00' * 32
